@@ -42,10 +42,23 @@ def replay(pid, path):
     return 0 if v["verdict"] == "ok" else 2
 
 
-def _sys(pid, tier, seed, own, fams, nq, nt, cq, ct, emphasis=None, size_q="small", size_t="small", fixed=None):
+MC_NOTE = ("every interleaving of the shared accesses (inbox CAS push, inbox exchange, the three fetch_add on the flag word) of two worker threads, "
+           "with the control flow of process_msg/do_rollback transcribed from process.c, on micro-model %s with a checkpoint every %d events: all "
+           "action checks, C01 at quiescence, C06 nothing left")
+
+
+def _tw_mc(c, tier, which):
+    """exhaustive TLC runs of TimeWarpMC on micro-models; `which`: list of (module, cfg, model name, k)"""
+    for (mod, cfg, name, k) in which:
+        c.mc_phase(mod, cfg, MC_NOTE % (name, k), workers=8, timeout=1500, heap="8g")
+
+
+def _sys(pid, tier, seed, own, fams, nq, nt, cq, ct, emphasis=None, size_q="small", size_t="small", fixed=None, mc=None):
     c = syscamp.Campaign(pid, tier, seed, own_ids=own)
     try:
         c.build()
+        if mc:
+            _tw_mc(c, tier, mc[0] if tier == "quick" else mc[0] + mc[1])
         c.run(_models(tier, seed, fams, nq, nt, size_q, size_t), cq if tier == "quick" else ct, emphasis=emphasis,
               fixed_cfgs=fixed)
         return c.finish()
@@ -54,7 +67,11 @@ def _sys(pid, tier, seed, own, fams, nq, nt, cq, ct, emphasis=None, size_q="smal
 
 
 def check_C01(tier, seed):
-    return _sys("C01", tier, seed, ["C01", "C03"], ["mixed", "ties", "zerodelay", "fanout", "chain", "single", "mixed", "chain"], 8, 40, 5, 12)
+    mc = ([("TimeWarpMC_m1.tla", "TimeWarpMC_m1_k1.cfg", "m1 (2 LPs, straggler + anti before/after processing)", 1),
+           ("TimeWarpMC_m1.tla", "TimeWarpMC_m1_k3.cfg", "m1", 3)],
+          [("TimeWarpMC_m2.tla", "TimeWarpMC_m2_k1.cfg", "m2 (3 LPs, cascade of depth 2, zero-delay tie)", 1),
+           ("TimeWarpMC_m2.tla", "TimeWarpMC_m2_k3.cfg", "m2", 3)])
+    return _sys("C01", tier, seed, ["C01", "C03"], ["mixed", "ties", "zerodelay", "fanout", "chain", "single", "mixed", "chain"], 8, 40, 5, 12, mc=mc)
 
 
 def check_C03(tier, seed):
@@ -119,6 +136,9 @@ def check_C05(tier, seed):
     try:
         c.build()
         _alloc_mc(c, tier)
+        _tw_mc(c, tier, [("TimeWarpMC_m1.tla", "TimeWarpMC_m1.cfg", "m1 (2 LPs: rollback to at/between/before checkpoints)", 2)] +
+               ([("TimeWarpMC_m2.tla", "TimeWarpMC_m2_k1.cfg", "m2 (3 LPs, cascade)", 1), ("TimeWarpMC_m2.tla", "TimeWarpMC_m2_k2.cfg", "m2", 2)]
+                if tier == "thorough" else []))
         c.driver_phase(_alloc_runs(tier, seed))
         em = lambda r: {"ckpt": r.choice([0, 1, 2, 3, 5, 7, 11]), "switch": r.choice(["1/8", "1/24", "1/96", "1/300"]),
                         "threads": r.choice([2, 3, 4])}
@@ -130,7 +150,18 @@ def check_C05(tier, seed):
 
 def check_C06(tier, seed):
     em = lambda r: {"switch": r.choice(["1/2", "1/8", "1/24", "1/96"]), "threads": r.choice([2, 3, 4, 6])}
-    return _sys_dist("C06", tier, seed, ["C06"], ["fanout", "chain", "mixed", "fanout", "zerodelay", "chain", "ties"], 7, 30, 5, 12, em, 6, 14)
+    c = syscamp.Campaign("C06", tier, seed, own_ids=["C06"])
+    try:
+        c.build(dist=True)
+        _tw_mc(c, tier, [("TimeWarpMC_m1.tla", "TimeWarpMC_m1.cfg", "m1 (2 LPs: cancel before extraction / after processing / while re-queued)", 2),
+                         ("TimeWarpMC_m2.tla", "TimeWarpMC_m2_k2.cfg", "m2 (3 LPs, cascade of depth 2)", 2)] +
+               ([("TimeWarpMC_m2.tla", "TimeWarpMC_m2_k1.cfg", "m2", 1), ("TimeWarpMC_m2.tla", "TimeWarpMC_m2_k3.cfg", "m2", 3)] if tier == "thorough" else []))
+        fams = ["fanout", "chain", "mixed", "fanout", "zerodelay", "chain", "ties"]
+        c.run(_models(tier, seed, fams, 7, 30), 5 if tier == "quick" else 12, emphasis=em)
+        c.run(_models(tier, seed + 50, fams, 3, 15), 6 if tier == "quick" else 14, emphasis=DIST_EM)
+        return c.finish()
+    finally:
+        c.close()
 
 
 def _mc(spec, cfg, workers=8, timeout=1200, heap="8g"):
@@ -519,6 +550,10 @@ def check_C17(tier, seed):
             sd = r.randrange(1, 1 << 30)
             runs.append({"driver": "bardrv", "args": (lambda a: (lambda tr: [tr] + a))([sd, n, k, sw, pol]), "spec": "BarrierTrace.tla",
                          "cfg": "BarrierTrace.cfg", "label": "bar%d" % i})
+        # truly concurrent runs as well: accesses between two observation points can only interleave there
+        for i in range(3 if tier == "quick" else 12):
+            runs.append({"driver": "bardrv", "args": (lambda a: (lambda tr: [tr] + a))([i + 1, r.choice([2, 3, 4]), 20000 if tier == "quick" else 200000, "1/1", 9]),
+                         "spec": "BarrierTrace.tla", "cfg": "BarrierTrace.cfg", "label": "barreal%d" % i, "timeout": 600})
         c.driver_phase(runs)
         return c.finish(rule="model checking: every interleaving for N=2,3,4; binding: N in 2..6 real threads x 9..16 consecutive uses x random/round-robin/"
                              "priority schedules switching between the fetch_add and each spin-loop load (distinct by seed), one validated line per arrival/return",
